@@ -6,7 +6,7 @@
     float) that meet every hypothesis of C20_gen_wf_partial and C20_gen_decodes. *)
 From Coq Require Import List NArith Bool String.
 From ApiFu Require Import Base.Sexp Gen.GoTypes Gen.ClientGenModel Gen.DecodeModel Gen.ClientGenSpec
-     Gen.ClientGenMain Gen.ClientGenWitness Gen.ClientGenDeclSafe Gen.LoadSchemaModel Gen.LoadSchemaProofs Gen.ClientGenClauses.
+     Gen.ClientGenMain Gen.ClientGenWitness Gen.ClientGenDeclSafe Gen.LoadSchemaModel Gen.LoadSchemaProofs Gen.ClientGenAgree Gen.ClientGenClauses.
 Import ListNotations.
 Open Scope string_scope.
 
@@ -19,14 +19,14 @@ Proof. repeat split; try (vm_compute; reflexivity). left. reflexivity. Qed.
 
 (** the theorems instantiated: a program is generated, is well formed, and decodes the response *)
 Example c20_instance :
-  exists p, generate_cli no_quirks ex_schema (doc_valid ex_schema ex_doc) ex_doc = GOk p /\ wf_program p = true /\
+  exists p, generate_real ex_schema (doc_valid ex_schema ex_doc) ex_doc = GOk p /\ wf_program p = true /\
     exists n v, (forall fuel, (n <= fuel)%nat -> decode_op p fuel (bs "Q") (json_of ex_resp) = DOk v) /\
                 (forall pl, In pl (leaves v) <-> In pl (expected ex_schema ex_op_linked ex_resp)).
 Proof.
   destruct c20_hypotheses_hold as (H1 & HL & H2 & H3 & H4 & H5 & H6).
-  destruct (cli_accepts_wf ex_schema ex_doc H1 HL H2 H3) as [p [Hg Hw]].
+  destruct (real_accepts_wf ex_schema ex_doc H1 HL H2 H3) as [p [Hg Hw]].
   exists p. split; [exact Hg|]. split; [exact Hw|].
-  apply (cli_decodes ex_schema ex_doc H1 HL H2 H3 p ex_op_linked (bs "Q") ex_resp Hg H4 H5 H6).
+  apply (real_decodes ex_schema ex_doc H1 HL H2 H3 p ex_op_linked (bs "Q") ex_resp Hg H4 H5 H6).
 Qed.
 
 (** the instance is not trivial: the response has leaves below fragments of both concrete types *)
